@@ -317,3 +317,46 @@ pub fn play_macro(
         }
     }
 }
+
+/// Read-only views for the verification harness (no behaviour; compiled only with
+/// `--cfg jtroo_kanata_verif`).
+#[cfg(jtroo_kanata_verif)]
+pub fn verif_item_digest(item: &DynamicMacroItem) -> String {
+    match item {
+        DynamicMacroItem::Press((osc, d)) => format!("P{}.{}", u16::from(*osc), d),
+        DynamicMacroItem::Release((osc, d)) => format!("R{}.{}", u16::from(*osc), d),
+        DynamicMacroItem::EndMacro(id) => format!("E{id}"),
+    }
+}
+
+#[cfg(jtroo_kanata_verif)]
+impl DynamicMacroRecordState {
+    /// `id;waiting;current_delay;items`
+    pub fn verif_digest(&self) -> String {
+        let w = match &self.waiting_event {
+            None => "-".to_string(),
+            Some((osc, WaitingEventType::Press)) => format!("P{}", u16::from(*osc)),
+            Some((osc, WaitingEventType::Release)) => format!("R{}", u16::from(*osc)),
+        };
+        let items: Vec<String> = self.macro_items.iter().map(verif_item_digest).collect();
+        format!(
+            "{};{};{};{}",
+            self.starting_macro_id,
+            w,
+            self.current_delay,
+            items.join(",")
+        )
+    }
+}
+
+#[cfg(jtroo_kanata_verif)]
+impl DynamicMacroReplayState {
+    /// `active ids (sorted);delay_remaining;queued items`
+    pub fn verif_digest(&self) -> String {
+        let mut act: Vec<u16> = self.active_macros.iter().copied().collect();
+        act.sort();
+        let act: Vec<String> = act.iter().map(|a| a.to_string()).collect();
+        let items: Vec<String> = self.macro_items.iter().map(verif_item_digest).collect();
+        format!("{};{};{}", act.join(","), self.delay_remaining, items.join(","))
+    }
+}
